@@ -243,7 +243,10 @@ def run(ctx):
         ('householder_vector[3 e1]', lambda a: tri.householder_vector(*a), [_a3.copy(), _e1.copy() / 3.0]), ('householder_matrix[3 e1]', lambda a: tri.householder_matrix(*a), [_a3.copy(), _e1.copy()]),
         ('householder_matrix[e1+e2]', lambda a: tri.householder_matrix(*a), [_a3.copy(), _e12.copy()]), ('householder_matrix[-0.5 e2]', lambda a: tri.householder_matrix(*a), [_a3.copy(), np.array([0.0, -0.5, 0.0])]),
         ('internal_tridiagonalizer', lambda a: tri.internal_tridiagonalizer(*a), [Hm.copy()]), ('check_tridiagonal', lambda a: tri.check_tridiagonal(*a), [_tri_in]),
-        ('check_hessenberg', lambda a: hessenberg.check_hessenberg(*a), [S.copy()]), ('is_hessenberg', lambda a: hessenberg.is_hessenberg(*a), [S.copy()]),
+        ('check_hessenberg', lambda a: hessenberg.check_hessenberg(*a), [S.copy()]),
+        ('check_hessenberg[negligible entries below the sub-diagonal]', lambda a: hessenberg.check_hessenberg(*a), [np.triu(S, -1) + np.tril(np.ones((S.shape[0], S.shape[0])), -2) * quaternion.quaternion(3e-14, -2e-15, 1e-13, 4e-16)]),
+        ('check_tridiagonal[negligible entries outside the band]', lambda a: tri.check_tridiagonal(*a), [_tri_in + (np.ones((4, 4)) - np.triu(np.tril(np.ones((4, 4)), 1), -1)) * quaternion.quaternion(2e-15, 1e-16, -3e-15, 1e-15)]),
+        ('is_hessenberg[negligible entries]', lambda a: hessenberg.is_hessenberg(*a), [np.triu(S, -1) + np.tril(np.ones((S.shape[0], S.shape[0])), -2) * quaternion.quaternion(3e-14, 0, 0, 0)]), ('is_hessenberg', lambda a: hessenberg.is_hessenberg(*a), [S.copy()]),
         ('ggivens', lambda a: utils.ggivens(*a), _g), ('GRSGivens', lambda a: utils.GRSGivens(*a), [rs.rand(4)]),
         ('absQsparse', lambda a: utils.absQsparse(*a), comp(A)), ('dotinvQsparse', lambda a: utils.dotinvQsparse(*a), comp(A)),
         ('quat_hermitian', lambda a: utils.quat_hermitian(*a), [A.copy()]), ('quat_matmat', lambda a: utils.quat_matmat(*a), [A.copy(), B.copy()]), ('quat_frobenius_norm', lambda a: utils.quat_frobenius_norm(*a), [A.copy()]),
